@@ -71,11 +71,13 @@ theorem C12_headline_with_query_str (e : Env) (u : Url) (s : Str)
   obtain ⟨v, h1, h2, h3⟩ := C12_with_query_str_pairs e u s hs
   exact ⟨v, h1, h2, fun h => by rw [h2, C12_parseQslLit_no_pct s h], h3⟩
 
-/-- FINDING of C12More.lean (inconsistency between the three methods, not a crash; not in KNOWN_FINDINGS): a '%XY' in a
-    STRING argument is DATA for `with_query` / `extend_query` (`"a=%41"` is stored as `a=%2541` and reads back as
-    `("a", "%41")`) but an ESCAPE for `update_query` (the string goes through `parse_qsl` first: `("a", "A")`).  So "the
-    pairs of q" of a string are not the `parse_qsl` pairs for with_query / extend_query: the lemma GAPS 2 asked for,
-    `parseQsl (QUERY_QUOTER s) = parseQsl s`, is false (`parseQslLit s ≠ parseQsl s` here).  `u` = `http://h/`, `s` = "a=%41". -/
+/-- the side condition `37 ∉ s` of the `parse_qsl` clause above is needed — see the OBSERVATION
+    `C12_headline_observation_str_argument_pct` below: a '%XY' in a STRING argument is DATA for `with_query` /
+    `extend_query` (`"a=%41"` is stored as `a=%2541` and reads back as `("a", "%41")`) but an ESCAPE for `update_query`
+    (the string goes through `parse_qsl` first: `("a", "A")`).  So "the pairs of q" of a string are not the `parse_qsl`
+    pairs for with_query / extend_query: the lemma GAPS 2 asked for, `parseQsl (QUERY_QUOTER s) = parseQsl s`, is false
+    (`parseQslLit s ≠ parseQsl s` here).  This refutes that LEMMA, not a clause of C12.  `u` = `http://h/`, `s` = "a=%41".
+    Cites C12_str_argument_pct_differs. -/
 theorem C12_headline_with_query_str_fails_for_percent (e : Env) :
     let u := fromParts [104, 116, 116, 112] [104] [47] [] []
     let s : Str := [97, 61, 37, 52, 49]
@@ -85,6 +87,26 @@ theorem C12_headline_with_query_str_fails_for_percent (e : Env) :
     (∃ v, updateQuery e u (.str s) = .ok v ∧ queryPairs v = [([97], [65])]) ∧
     parseQslLit s ≠ parseQsl s :=
   C12_str_argument_pct_differs e
+
+/-- OBSERVATION (NOT a violated clause of C12; not in KNOWN_FINDINGS): a STRING argument with `%41` reads back as `%41`
+    through with_query / extend_query but as `A` through update_query.  On `u` = `http://h/` with the argument "a=%41":
+    `with_query("a=%41").query` and `extend_query("a=%41").query` are `[("a", "%41")]` — the string is quoted as DATA, the
+    stored raw query is "a=%2541" — whereas `update_query("a=%41").query` is `[("a", "A")]` — there the string is first
+    read by `parse_qsl`, which treats `%41` as an ESCAPE.  The property text speaks of "the pairs of q" and does not say
+    how a string argument denotes pairs; each of the three methods satisfies its clause for ITS reading of the string
+    (C12_headline_with_query_str / C12_headline_extend_query_str with `parseQslLit`; C12_headline_update_keeps_others_mapping_str /
+    …_replaces_mapping_str with `parse_qsl`), so no clause is violated — what is observed is that the two readings differ
+    as soon as the string contains a percent escape (they agree when it contains no '%': C12_parseQslLit_no_pct).
+    Cites C12_str_argument_pct_differs (C12More.lean). -/
+theorem C12_headline_observation_str_argument_pct (e : Env) :
+    let u := fromParts "http".toStr "h".toStr "/".toStr [] []
+    let s : Str := "a=%41".toStr
+    (∃ v, withQuery e u (.str s) = .ok v ∧ queryPairs v = [("a".toStr, "%41".toStr)]) ∧
+    (∃ v, extendQuery e u (.str s) = .ok v ∧ queryPairs v = [("a".toStr, "%41".toStr)]) ∧
+    (∃ v, updateQuery e u (.str s) = .ok v ∧ queryPairs v = [("a".toStr, "A".toStr)]) ∧
+    parseQslLit s = [("a".toStr, "%41".toStr)] ∧ parseQsl s = [("a".toStr, "A".toStr)] :=
+  ⟨(C12_str_argument_pct_differs e).2.1, (C12_str_argument_pct_differs e).2.2.1,
+   (C12_str_argument_pct_differs e).2.2.2.1, by decide +kernel, by decide +kernel⟩
 
 /-- the `GoodText` guard is needed (C06 "lone surrogates excepted"): `with_query("\ud800=1")` reads back `("", "1")` while
     the literal pairs of the string are `("\ud800", "1")` -/
@@ -439,12 +461,16 @@ GAPS:
     argument immutability).
  2. CLOSED by C12_with_query_str_pairs, C12_extend_query_str_pairs, C12_parseQslLit_no_pct, C12_str_argument_pct_differs
     (C12More.lean), see C12_headline_with_query_str, C12_headline_extend_query_str, C12_headline_str_argument_pairs_def,
-    C12_headline_with_query_str_fails_for_percent.  For every string without lone surrogates `with_query(s)` has exactly, and
+    C12_headline_with_query_str_fails_for_percent, C12_headline_observation_str_argument_pct.  For every string without lone surrogates `with_query(s)` has exactly, and
     `extend_query(s)` appends exactly, the LITERAL pairs of `s` (split on '&' and the first '=', '+' → ' ', '%' is data); these
     are the `parse_qsl` pairs whenever `s` contains no '%'.  The lemma this item asked for, `parseQsl (QUERY_QUOTER s)
     = parseQsl s`, is FALSE for strings with percent escapes (proved instead: `= parseQslLit s`, C12_parseQsl_quote) — so for a
-    string argument with_query / extend_query ("%41" is the text "%41") and update_query ("%41" is "A") disagree: a finding of
-    C12More.lean that is not (yet) in KNOWN_FINDINGS.  (Also in C12More.lean, not restated here: `URL.build(query_string=…)` /
+    string argument with_query / extend_query ("%41" is the text "%41") and update_query ("%41" is "A") read the string
+    differently.  This is recorded as an OBSERVATION, not as a violated clause of C12 (the property text does not say how a
+    string argument denotes "the pairs of q"; each method satisfies its clause for its own reading) and not as a
+    KNOWN_FINDINGS entry: C12_headline_observation_str_argument_pct, citing C12_str_argument_pct_differs — a string
+    argument with `%41` reads back as `%41` through with_query / extend_query but as `A` through update_query.  (Also in
+    C12More.lean, not restated here: `URL.build(query_string=…)` /
     `build(query=…)` — C12_build_query_string_pairs, C12_build_query_pairs.)
  3. "floats are rendered by str()": `str(float)` is an INPUT of the model (`QVal.float txt kind`); only the
     finite/NaN/inf classification is modelled.  Ints: `intToStr` is proved nowhere to equal Python's
